@@ -10,6 +10,7 @@ import (
 
 	"github.com/openconfig/gribigo/rib"
 	"github.com/openconfig/gribigo/server"
+	"github.com/openconfig/ygot/ygot"
 
 	spb "github.com/openconfig/gribi/v1/proto/service"
 
@@ -41,6 +42,8 @@ type RIBMon struct {
 	// (the RIB is wedged): every later step of this monitor is skipped as inconclusive,
 	// and ev.Finish decides at the end of the run whether the block is permanent.
 	Dead bool
+	// nCompare counts Compare calls (every 8th also scribbles on the snapshot it was given).
+	nCompare int
 }
 
 const deadMsg = "INCONCLUSIVE|a call into the RIB did not return within the watchdog; the rest of this case was skipped"
@@ -314,6 +317,45 @@ func (x *RIBMon) compare() []string {
 		return []string{"ribcontents-error|" + err.Error()}
 	}
 	out = append(out, diffProblems("contents", x.M.Contents(), canon.FromYgot(rc))...)
+	x.nCompare++
+	if len(out) == 0 && x.nCompare%8 == 0 {
+		// RIBContents hands out a copy: whatever its holder does to it - here every
+		// reference is re-pointed and every group and next-hop removed - is none of the RIB's
+		// business. The RIB is read again and must still be what the model says (the
+		// counters are compared below as always).
+		for _, r := range rc {
+			if r == nil || r.Afts == nil {
+				continue
+			}
+			for _, e := range r.Afts.Ipv4Entry {
+				e.NextHopGroup = ygot.Uint64(424242)
+				e.NextHopGroupNetworkInstance = ygot.String("SCRIBBLE")
+			}
+			for _, e := range r.Afts.Ipv6Entry {
+				e.NextHopGroup = ygot.Uint64(424242)
+			}
+			for _, e := range r.Afts.LabelEntry {
+				e.NextHopGroup = ygot.Uint64(424242)
+			}
+			for id, g := range r.Afts.NextHopGroup {
+				for nh := range g.NextHop {
+					delete(g.NextHop, nh)
+				}
+				delete(r.Afts.NextHopGroup, id)
+			}
+			for id := range r.Afts.NextHop {
+				delete(r.Afts.NextHop, id)
+			}
+		}
+		rc2, err := x.R.RIBContents()
+		if err != nil {
+			return []string{"ribcontents-error|" + err.Error()}
+		}
+		for _, p := range diffProblems("contents", x.M.Contents(), canon.FromYgot(rc2)) {
+			sig, txt := SplitSig(p)
+			out = append(out, "snapshot-shares-memory-with-the-rib:"+sig+"|after the holder of a RIBContents() copy modified that copy: "+txt)
+		}
+	}
 	if x.CheckHeld {
 		out = append(out, x.CompareHeld()...)
 	}
